@@ -239,6 +239,40 @@ class Facts:
         k = (crate, kind or ("lib" if (crate, "lib") in self.files else "bin"))
         return [f for p, f in self._idx[k]["hir"].items() if pred(p)]
 
+    @staticmethod
+    def strip_generics(path):
+        """`a::B::<T, U>::f` / `<a::B<T> as c::Tr>::f` -> the same path without generic argument lists"""
+        out = []
+        depth = 0
+        i = 0
+        while i < len(path):
+            ch = path[i]
+            if ch == "<":
+                # keep the leading `<` of a qualified path `<T as Trait>::f`
+                if i == 0 or path[i - 1] in " (":
+                    out.append(ch)
+                    i += 1
+                    continue
+                depth += 1
+                if out[-2:] == [":", ":"]:
+                    out = out[:-2]
+            elif ch == ">" and depth > 0:
+                depth -= 1
+            elif depth == 0:
+                out.append(ch)
+            i += 1
+        return "".join(out)
+
+    def method(self, crate, type_path, name, table="hir", kind=None):
+        """the unique inherent method `type_path::name` regardless of the impl's generic parameter list (fails closed)"""
+        self.crate(crate, kind)
+        k = (crate, kind or ("lib" if (crate, "lib") in self.files else "bin"))
+        want = f"{type_path}::{name}"
+        hits = [v for p, v in self._idx[k][table if table != "mir" else "fns"].items() if self.strip_generics(p) == want]
+        if len(hits) != 1:
+            raise MissingAnchor(f"{'HIR' if table == 'hir' else 'MIR'} body of {want}: {len(hits)} candidates")
+        return hits[0]
+
     def closures_of(self, root_path):
         """MIR bodies of closures whose typeck root is `root_path`."""
         out = []
